@@ -255,6 +255,7 @@ func (s *SpecValidator) validateDuplicatePropertyNames() *Result {
 			for _, v := range dups {
 				pns = append(pns, v.Definition+"."+v.Name)
 			}
+			sort.Strings(pns) // properties are gathered from maps: a stable message
 			res.AddErrors(duplicatePropertiesMsg(k, pns))
 		}
 
